@@ -189,6 +189,50 @@ def msearch(src, pattern, env=None, full=False):
     return env
 
 
+def recursion_steps(func):
+    """Self-recursive calls of `func` (by name: `x.f(..)`, `C.f(..)`, `f(..)`)
+    that pass `<own parameter> +/- <int literal>`:
+    [(call, parameter, '+'|'-', literal)]."""
+    params = set(func.all_param_names())
+    out = []
+    for c in func.own_nodes():
+        if not isinstance(c, ast.Call):
+            continue
+        nm = c.func.attr if isinstance(c.func, ast.Attribute) else (
+            c.func.id if isinstance(c.func, ast.Name) else None)
+        if nm != func.name:
+            continue
+        for a in list(c.args) + [k.value for k in c.keywords]:
+            if isinstance(a, ast.BinOp) and isinstance(a.op, (ast.Add, ast.Sub)) and \
+                    isinstance(a.left, ast.Name) and a.left.id in params and \
+                    isinstance(a.right, ast.Constant) and type(a.right.value) is int:
+                out.append((c, a.left.id, "+" if isinstance(a.op, ast.Add) else "-",
+                            a.right.value))
+    return out
+
+
+def check_unit_recursion(ctx, rule, func, what):
+    """A function that walks the tree level by level recurses with its
+    depth / level parameter changed by exactly one, always in the same
+    direction.  Returns the number of recursion sites examined."""
+    steps = recursion_steps(func)
+    dirs = {d for _, _, d, _ in steps}
+    for c, prm, d, k in steps:
+        if k == 1 and len(dirs) == 1:
+            ctx.ok(rule, func, c, "%s: one level per recursion (%s %s 1)"
+                   % (what, prm, d), text_="%s recursion step" % func.name)
+        else:
+            ctx.bad(rule, func, c, "%s recurses with `%s %s %d`%s: the walk "
+                    "does not move exactly one level per recursion, so levels "
+                    "are skipped / visited twice and the level-indexed "
+                    "quantities (shape entry, rank, remaining levels) belong to "
+                    "the wrong rank" % (func.name, prm, d, k,
+                                        "" if len(dirs) == 1 else
+                                        " (mixed directions)"),
+                    text_="%s recursion step" % func.name)
+    return len(steps)
+
+
 def guarded_actions(ctx, func, stmts, base=frozenset()):
     """[(guard atoms, statement, value expr)] of the simple statements of a
     block: nested `if`s contribute their (canonical) atoms, a conditional
